@@ -95,6 +95,9 @@ type Call struct {
 	Disabled  *Ref
 	Bindings  []Binding
 	Comment   string
+	// WildcardSelf prints every binding of the form param = self.param as
+	// the single wildcard binding "* = self" (same meaning).
+	WildcardSelf bool
 }
 
 type Pipeline struct {
@@ -173,6 +176,9 @@ type Layout struct {
 	Comments bool
 	// OldModifiers prints "call local volatile X(...)" instead of using(...).
 	OldModifiers bool
+	// Dangling adds comments that are not followed by an element of their
+	// scope (before a closing bracket).
+	Dangling bool
 }
 
 type printer struct {
@@ -183,6 +189,7 @@ type printer struct {
 	lay *Layout
 	u   *Universe
 	nc  int
+	nd  int
 }
 
 func (p *printer) pick(n int) int {
@@ -201,6 +208,16 @@ func (p *printer) comment(indent string) {
 	}
 	p.nc++
 	fmt.Fprintf(&p.b, "%s# c%d note\n", indent, p.nc)
+}
+
+// dangling emits a comment in front of a closing bracket.
+func (p *printer) dangling(indent string) {
+	if p.lay == nil || !p.lay.Dangling || p.pick(4) != 0 {
+		return
+	}
+	p.nc++
+	p.nd++
+	fmt.Fprintf(&p.b, "%s# d%d dangling\n", indent, p.nc)
 }
 
 func (p *printer) ws() string {
@@ -240,9 +257,22 @@ func (prog *Program) Source(lay *Layout) string {
 	return s
 }
 
+// SourceStats renders the program and reports how many comments were
+// emitted in total and how many of them dangle.
+func (prog *Program) SourceStats(lay *Layout) (src string, comments, dangling int) {
+	p := &printer{lay: lay, u: prog.U, lines: map[string][2]int{}}
+	prog.render(p)
+	return p.b.String(), p.nc, p.nd
+}
+
 // SourceLines also returns the line span of every call.
 func (prog *Program) SourceLines(lay *Layout) (string, map[string][2]int) {
 	p := &printer{lay: lay, u: prog.U, lines: map[string][2]int{}}
+	prog.render(p)
+	return p.b.String(), p.lines
+}
+
+func (prog *Program) render(p *printer) {
 	p.b.WriteString(prog.U.Decls())
 	for _, s := range prog.Stages {
 		p.b.WriteString("\n")
@@ -256,7 +286,34 @@ func (prog *Program) SourceLines(lay *Layout) (string, map[string][2]int) {
 		p.b.WriteString("\n")
 		p.printCall(prog, nil, prog.Top, "")
 	}
-	return p.b.String(), p.lines
+}
+
+// SourceFiles distributes the program over three files forming a diamond:
+// main.mro includes pipes.mro and sub/types.mro; pipes.mro includes
+// sub/types.mro.  Returns file name -> content; "main.mro" holds the call.
+func (prog *Program) SourceFiles(lay *Layout) map[string]string {
+	files := map[string]string{}
+	p := &printer{lay: lay, u: prog.U}
+	p.b.WriteString(prog.U.Decls())
+	for _, s := range prog.Stages {
+		p.b.WriteString("\n")
+		p.printStage(s)
+	}
+	files["sub/types.mro"] = p.b.String()
+	p = &printer{lay: lay, u: prog.U}
+	p.b.WriteString("@include \"sub/types.mro\"\n")
+	for _, pl := range prog.Pipelines {
+		p.b.WriteString("\n")
+		p.printPipeline(prog, pl)
+	}
+	files["pipes.mro"] = p.b.String()
+	p = &printer{lay: lay, u: prog.U}
+	p.b.WriteString("@include \"pipes.mro\"\n@include \"sub/types.mro\"\n\n")
+	if prog.Top != nil {
+		p.printCall(prog, nil, prog.Top, "")
+	}
+	files["main.mro"] = p.b.String()
+	return files
 }
 
 func (p *printer) printStage(s *Stage) {
@@ -268,7 +325,9 @@ func (p *printer) printStage(s *Stage) {
 	writeParams(p, "in ", s.Ins, "    ")
 	writeParams(p, "out", s.Outs, "    ")
 	p.comment("    ")
-	fmt.Fprintf(&p.b, "    src %s%s%s,\n)", s.SrcLang, p.ws(), QuoteMro(s.SrcPath))
+	fmt.Fprintf(&p.b, "    src %s%s%s,\n", s.SrcLang, p.ws(), QuoteMro(s.SrcPath))
+	p.dangling("    ")
+	p.b.WriteString(")")
 	if s.Split {
 		if p.pick(2) == 1 {
 			p.b.WriteString(" split using (\n")
@@ -381,12 +440,22 @@ func (p *printer) printCall(prog *Program, pl *Pipeline, c *Call, indent string)
 		fmt.Fprintf(&p.b, " as %s", c.Id)
 	}
 	p.b.WriteString("(\n")
+	wild := false
 	for _, b := range c.Bindings {
+		if r, ok := b.E.(Ref); ok && c.WildcardSelf && r.Call == "" && r.Out == b.Param && len(r.Path) == 0 {
+			wild = true
+			continue
+		}
 		p.comment(indent + "    ")
 		fmt.Fprintf(&p.b, "%s    %s%s=%s", indent, b.Param, p.ws(), p.ws())
 		p.printExpr(b.E, indent+"    ")
 		p.b.WriteString(",\n")
 	}
+	if wild {
+		p.comment(indent + "    ")
+		fmt.Fprintf(&p.b, "%s    *%s=%sself,\n", indent, p.ws(), p.ws())
+	}
+	p.dangling(indent + "    ")
 	p.b.WriteString(indent + ")")
 	if !old && (c.Local || c.Preflight || c.Volatile || c.Disabled != nil) {
 		p.b.WriteString(" using (\n")
@@ -440,6 +509,7 @@ func (p *printer) printExpr(e Expr, indent string) {
 			p.printExpr(el, indent+"    ")
 			p.b.WriteString(",\n")
 		}
+		p.dangling(indent + "    ")
 		p.b.WriteString(indent + "]")
 	case MapLit:
 		if len(x.Keys) == 0 {
